@@ -5,6 +5,7 @@
     and the byte-range splice); the proofs are in CopyPath/*Proofs.v. *)
 From Coq Require Import List NArith ZArith Bool Arith Lia.
 From PQ Require Import CopyPath.Decision CopyPath.DecisionProofs
+                       CopyPath.Groups CopyPath.GroupsProofs
                        CopyPath.Batches CopyPath.BatchesProofs
                        CopyPath.Splice CopyPath.SpliceProofs
                        Dremel.Model Dremel.Proofs.
@@ -51,20 +52,24 @@ Proof.
 Qed.
 
 (** The conditions of one column are exactly these (both directions, all
-    1 024 vectors of [col_abs]). *)
+    4 096 vectors of [col_abs]); the last one (repair f873992): a destination
+    with a dictionary size limit takes a verbatim copy only of a chunk whose
+    dictionary page declares a size within the limit. *)
 Theorem C11_column_copyable_iff : forall a : col_abs,
   column_copyable_abs a = true <->
   (a_file a = true /\ a_src_encrypted a = false /\ a_dst_enc_key a = false /\ a_type_eq a = true /\
    a_codec_eq a = true /\ (a_dst_filter a = true -> a_bloom_ok a = true) /\
-   a_column_index a = true /\ a_offset_index a = true /\ a_stats_ok a = true).
+   a_column_index a = true /\ a_offset_index a = true /\ a_stats_ok a = true /\
+   (a_dict_limit a = true -> a_dict_fits a = true)).
 Proof.
   intro a. split.
   - intro H. pose proof (all_col_spec _ col_rule_all a) as R. unfold col_rule in R. rewrite H in R.
-    destruct a as [[] [] [] [] [] [] [] [] [] []]; cbn in *; try discriminate; repeat split; auto; discriminate.
-  - intros (H1 & H2 & H3 & H4 & H5 & H6 & H7 & H8 & H9).
+    destruct a as [[] [] [] [] [] [] [] [] [] [] [] []]; cbn in *; try discriminate; repeat split; auto; discriminate.
+  - intros (H1 & H2 & H3 & H4 & H5 & H6 & H7 & H8 & H9 & H10).
     pose proof (all_col_spec _ col_rule_conv_all a) as R. unfold col_rule_conv in R.
     rewrite H1, H2, H3, H4, H5, H7, H8, H9 in R.
-    destruct (a_dst_filter a); [rewrite (H6 eq_refl) in R|]; exact R.
+    destruct (a_dict_limit a); [rewrite (H10 eq_refl) in R|];
+      (destruct (a_dst_filter a); [rewrite (H6 eq_refl) in R|]; exact R).
 Qed.
 
 (** Column-wise re-encoding is chosen only for chunk-transparent row groups
@@ -140,7 +145,38 @@ Proof. exact pack_segments_order. Qed.
 Theorem C11_pack_respects_max_rows : forall w segs, Forall (batch_ok w) (pack_segments w segs).
 Proof. exact pack_segments_max_rows. Qed.
 
+(** Rows written with WriteRows and still buffered when WriteRowGroup is called
+    are flushed before every elementary write of the call (the packing of
+    several segments included): with [written] rows handed to WriteRows before
+    the call, the row groups of the output split into a prefix holding exactly
+    those rows (each within MaxRowsPerRowGroup) and one row group per non-empty
+    copy / column-wise / packing action holding exactly the rows of the action;
+    no row is lost or added. *)
+Theorem C11_buffered_rows_flushed_first : forall w written acts l,
+  out_row_groups w written acts = Some l ->
+  exists pre post, l = pre ++ post /\ sum_N pre = written /\ action_row_groups acts = Some post.
+Proof. exact buffered_rows_not_shared. Qed.
+
+Theorem C11_buffered_row_groups_within_max : forall w written,
+  (0 < w_max_rows w)%N ->
+  Forall (fun g => (g <= w_max_rows w)%N) (full_groups w written ++ cons_nonempty (buffered_rows w written) []).
+Proof. exact buffered_groups_within_max. Qed.
+
+Theorem C11_row_groups_sum : forall w written acts l,
+  out_row_groups w written acts = Some l ->
+  exists la, action_row_groups acts = Some la /\ sum_N l = (written + sum_N la)%N.
+Proof. exact out_row_groups_sum. Qed.
+
+(* non-vacuity: 600 buffered rows, then two segments of 400 rows packed column-wise *)
+Example C11_ex_buffered_then_packed :
+  out_row_groups {| w_schema_set := true; w_encryption := false; w_max_rows := 1000; w_ncols := 2 |} 600
+                 [APack 2 800] = Some [600; 800]%N.
+Proof. vm_compute; reflexivity. Qed.
+
 Print Assumptions C11_decision_is_finite_cascade.
+Print Assumptions C11_buffered_rows_flushed_first.
+Print Assumptions C11_buffered_row_groups_within_max.
+Print Assumptions C11_row_groups_sum.
 Print Assumptions C11_copy_implies_settings_equal.
 Print Assumptions C11_copy_rule_on_whole_space.
 Print Assumptions C11_column_copyable_iff.
@@ -262,10 +298,11 @@ Definition ex_col : col := {|
   c_dst_filter := true; c_src_bloom_offset := true; c_src_bloom_length := true;
   c_dst_bloom_codec := None; c_src_bloom_header_ok := true; c_src_bloom_split_block := true;
   c_src_bloom_xxhash := true; c_src_bloom_uncompressed := true;
-  c_src_bloom_num_bytes := 64; c_dst_filter_size := 64;
+  c_src_bloom_num_bytes := 64; c_dst_filter_size := 128; c_dst_filter_size_dict := 64;
   c_src_column_index := true; c_src_offset_index := true;
   c_src_encoding_stats := [(PTDict, 0%N); (PTDataV2, 8%N)];
   c_dst_page_type := PTDataV2; c_dst_encoding := 8; c_dst_dict := true;
+  c_dst_dict_max := 0; c_src_dict_page := true; c_src_dict_header_ok := true; c_src_dict_uncompressed := 400;
   c_src_page_header_stats := false; c_dst_page_header_stats := true
 |}.
 
@@ -275,10 +312,11 @@ Definition ex_col_gzip : col := {|
   c_dst_filter := false; c_src_bloom_offset := false; c_src_bloom_length := false;
   c_dst_bloom_codec := None; c_src_bloom_header_ok := false; c_src_bloom_split_block := false;
   c_src_bloom_xxhash := false; c_src_bloom_uncompressed := false;
-  c_src_bloom_num_bytes := 0; c_dst_filter_size := 0;
+  c_src_bloom_num_bytes := 0; c_dst_filter_size := 0; c_dst_filter_size_dict := 0;
   c_src_column_index := true; c_src_offset_index := true;
   c_src_encoding_stats := [(PTDataV2, 0%N)];
   c_dst_page_type := PTDataV2; c_dst_encoding := 0; c_dst_dict := false;
+  c_dst_dict_max := 0; c_src_dict_page := false; c_src_dict_header_ok := false; c_src_dict_uncompressed := 0;
   c_src_page_header_stats := true; c_dst_page_header_stats := true
 |}.
 
@@ -288,6 +326,78 @@ Definition ex_file (rows : N) (c : col) : rg := RG KFile true true rows [c] [].
 
 Example C11_ex_copy : decide ex_sw ex_w (ex_file 100 ex_col) = PCopy.
 Proof. vm_compute. reflexivity. Qed.
+
+(* repair f873992: a destination limiting its dictionaries to 300 bytes does not take the chunk
+   (its dictionary page declares 400 bytes) verbatim; with a limit of 400 bytes it does *)
+Definition ex_col_limit (limit : N) : col := {|
+  c_class := CFile; c_src_encrypted := false; c_dst_enc_key := false;
+  c_src_type := 2; c_dst_type := 2; c_src_codec := 1; c_dst_codec := 1;
+  c_dst_filter := false; c_src_bloom_offset := false; c_src_bloom_length := false;
+  c_dst_bloom_codec := None; c_src_bloom_header_ok := false; c_src_bloom_split_block := false;
+  c_src_bloom_xxhash := false; c_src_bloom_uncompressed := false;
+  c_src_bloom_num_bytes := 0; c_dst_filter_size := 0; c_dst_filter_size_dict := 0;
+  c_src_column_index := true; c_src_offset_index := true;
+  c_src_encoding_stats := [(PTDict, 0%N); (PTDataV2, 8%N)];
+  c_dst_page_type := PTDataV2; c_dst_encoding := 8; c_dst_dict := true;
+  c_dst_dict_max := limit; c_src_dict_page := true; c_src_dict_header_ok := true; c_src_dict_uncompressed := 400;
+  c_src_page_header_stats := true; c_dst_page_header_stats := true
+|}.
+
+Example C11_ex_dictionary_limit_demotes : decide ex_sw ex_w (ex_file 100 (ex_col_limit 300)) = PReencode.
+Proof. vm_compute. reflexivity. Qed.
+
+Example C11_ex_dictionary_within_limit_copied : decide ex_sw ex_w (ex_file 100 (ex_col_limit 400)) = PCopy.
+Proof. vm_compute. reflexivity. Qed.
+
+(* the cascade before the repair did not read the limit: the same conditions without the last one *)
+Definition column_copyable_pinned (c : col) : bool :=
+  let a := col_abs_of c in
+  column_copyable_abs {| a_file := a_file a; a_src_encrypted := a_src_encrypted a; a_dst_enc_key := a_dst_enc_key a;
+                         a_type_eq := a_type_eq a; a_codec_eq := a_codec_eq a; a_dst_filter := a_dst_filter a;
+                         a_bloom_ok := a_bloom_ok a; a_column_index := a_column_index a; a_offset_index := a_offset_index a;
+                         a_stats_ok := a_stats_ok a; a_dict_limit := false; a_dict_fits := a_dict_fits a |}.
+
+Theorem C11_pinned_copy_ignores_dictionary_limit_refuted :
+  exists c, column_copyable_pinned c = true /\ c_dst_dict c = true /\
+            (0 < c_dst_dict_max c < c_src_dict_uncompressed c)%N /\ column_copyable c = false.
+Proof. exists (ex_col_limit 300). vm_compute. repeat split; reflexivity. Qed.
+
+Print Assumptions C11_pinned_copy_ignores_dictionary_limit_refuted.
+
+(* repair cc7588b: [ex_col] is a dictionary column whose filter (64 bytes) has the size the
+   destination builds from the 50 values of the dictionary, not the 128 bytes the 100 values of the
+   chunk would give: it is copied; a filter of 128 bytes is not.  Before the repair the sizes were
+   compared the other way round. *)
+Definition ex_col_filter (num_bytes : N) : col := {|
+  c_class := CFile; c_src_encrypted := false; c_dst_enc_key := false;
+  c_src_type := 2; c_dst_type := 2; c_src_codec := 1; c_dst_codec := 1;
+  c_dst_filter := true; c_src_bloom_offset := true; c_src_bloom_length := true;
+  c_dst_bloom_codec := None; c_src_bloom_header_ok := true; c_src_bloom_split_block := true;
+  c_src_bloom_xxhash := true; c_src_bloom_uncompressed := true;
+  c_src_bloom_num_bytes := num_bytes; c_dst_filter_size := 128; c_dst_filter_size_dict := 64;
+  c_src_column_index := true; c_src_offset_index := true;
+  c_src_encoding_stats := [(PTDict, 0%N); (PTDataV2, 8%N)];
+  c_dst_page_type := PTDataV2; c_dst_encoding := 8; c_dst_dict := true;
+  c_dst_dict_max := 0; c_src_dict_page := true; c_src_dict_header_ok := true; c_src_dict_uncompressed := 400;
+  c_src_page_header_stats := true; c_dst_page_header_stats := true
+|}.
+
+Example C11_ex_dictionary_filter_copied : decide ex_sw ex_w (ex_file 100 (ex_col_filter 64)) = PCopy.
+Proof. vm_compute. reflexivity. Qed.
+
+Example C11_ex_chunk_sized_filter_of_dictionary_column_rebuilt :
+  decide ex_sw ex_w (ex_file 100 (ex_col_filter 128)) = PReencode.
+Proof. vm_compute. reflexivity. Qed.
+
+(* the comparison before the repair: always with the size for the values of the chunk *)
+Definition bloom_size_check_pinned (c : col) : bool := N.eqb (c_src_bloom_num_bytes c) (c_dst_filter_size c).
+
+Theorem C11_pinned_bloom_size_of_dictionary_column_refuted :
+  exists c, c_dst_dict c = true /\ bloom_size_check_pinned c = true /\
+            c_dst_filter_size c <> c_dst_filter_size_dict c /\ bloom_filter_is_copyable c = false.
+Proof. exists (ex_col_filter 128). vm_compute. repeat split; try reflexivity; discriminate. Qed.
+
+Print Assumptions C11_pinned_bloom_size_of_dictionary_column_refuted.
 
 (* the same source into a destination with another codec is re-encoded column-wise *)
 Example C11_ex_reencode : decide ex_sw ex_w (ex_file 100 ex_col_gzip) = PReencode.
